@@ -26,8 +26,17 @@ pub const NEGADD_TAGS: &[&str] =
 
 /// a size: usually `lo + below(span)`, but one case in twelve is LONG (33..160): code paths that only exist for large
 /// inputs (a different search strategy above a length threshold, chunked evaluation, ...) are otherwise never run
+fn very_long_enabled() -> bool {
+    use std::sync::OnceLock;
+    static V: OnceLock<bool> = OnceLock::new();
+    *V.get_or_init(|| std::env::var("PP_VERY_LONG").map(|v| v == "1").unwrap_or(false))
+}
+
 fn size(r: &mut Rng, lo: usize, span: u64) -> usize {
-    if r.chance(1, 12) {
+    if very_long_enabled() && r.chance(1, 300) {
+        // VERY long (thorough tier only: PP_VERY_LONG=1): thresholds in the hundreds or thousands (u8 / u16 counters, block sizes, recursion cut-offs)
+        300 + r.below(3000) as usize
+    } else if r.chance(1, 12) {
         33 + r.below(128) as usize
     } else {
         lo + r.below(span) as usize
@@ -35,7 +44,9 @@ fn size(r: &mut Rng, lo: usize, span: u64) -> usize {
 }
 
 fn ncls(n: usize, cap: usize) -> String {
-    if n > 32 {
+    if n >= 300 {
+        "very-long".to_string()
+    } else if n > 32 {
         "long".to_string()
     } else {
         n.min(cap).to_string()
